@@ -292,6 +292,13 @@ bloom_filter_alloc<A> bloom_filter_alloc<A>::deserialize(std::istream& is, const
   const uint64_t seed = read<uint64_t>(is);
   const uint32_t num_longs = read<uint32_t>(is); // sized in java longs
   read<uint32_t>(is); // unused
+  // same ranges as the constructor enforces
+  if (num_hashes == 0) {
+    throw std::invalid_argument("Possible corruption: Must have at least 1 hash function");
+  }
+  if (num_longs == 0 || (static_cast<uint64_t>(num_longs) << 6) > MAX_FILTER_SIZE_BITS) {
+    throw std::invalid_argument("Possible corruption: Bit array length out of range: " + std::to_string(num_longs));
+  }
 
   // if empty, stop reading
   if (is_empty) {
@@ -302,7 +309,7 @@ bloom_filter_alloc<A> bloom_filter_alloc<A>::deserialize(std::istream& is, const
   const bool is_dirty = (num_bits_set == DIRTY_BITS_VALUE);
 
   // allocate memory
-  const uint64_t num_bytes = num_longs << 3;
+  const uint64_t num_bytes = static_cast<uint64_t>(num_longs) << 3;
   AllocUint8 alloc(allocator);
   uint8_t* bit_array = alloc.allocate(num_bytes);
   if (bit_array == nullptr) {
@@ -366,6 +373,13 @@ bloom_filter_alloc<A> bloom_filter_alloc<A>::internal_deserialize_or_wrap(void* 
   uint32_t num_longs;
   ptr += copy_from_mem(ptr, num_longs); // sized in java longs
   ptr += sizeof(uint32_t); // unused 32 bits follow
+  // same ranges as the constructor enforces
+  if (num_hashes == 0) {
+    throw std::invalid_argument("Possible corruption: Must have at least 1 hash function");
+  }
+  if (num_longs == 0 || (static_cast<uint64_t>(num_longs) << 6) > MAX_FILTER_SIZE_BITS) {
+    throw std::invalid_argument("Possible corruption: Bit array length out of range: " + std::to_string(num_longs));
+  }
 
   // if empty, stop reading
   if (wrap && is_empty && !read_only) {
@@ -388,7 +402,7 @@ bloom_filter_alloc<A> bloom_filter_alloc<A>::internal_deserialize_or_wrap(void* 
   } else {
     // allocate memory
     memory = nullptr;
-    const uint64_t num_bytes = num_longs << 3;
+    const uint64_t num_bytes = static_cast<uint64_t>(num_longs) << 3;
     ensure_minimum_memory(end_ptr - ptr, num_bytes);
     AllocUint8 alloc(allocator);
     bit_array = alloc.allocate(num_bytes);
